@@ -846,6 +846,8 @@ struct Digit {
 
                 const SizeT start_at = stream.Length();
                 bigIntToString(stream, b_int);
+                // Rounding can carry out of the most significant digit: that '1' is stored behind the digits.
+                stream.Expect(SizeT{1});
 
                 switch (format.Type) {
                     case RealFormatType::SemiFixed: {
@@ -1163,7 +1165,8 @@ struct Digit {
         const bool round =
             (((*number > DigitUtils::DigitChar::Five) ||
               ((*number == DigitUtils::DigitChar::Five) &&
-               (round_up || ((SizeT32(stream.First()[index] - DigitUtils::DigitChar::Zero) & 1U) == 1U)))));
+               (round_up || ((number < last) && // The next digit, when there is one, decides a tie.
+                             ((SizeT32(stream.First()[index] - DigitUtils::DigitChar::Zero) & 1U) == 1U))))));
 
         if (round) {
             ++number;
